@@ -13,6 +13,7 @@ what the theorems speak about, suffix walk, path-semantics acceptor). Compared:
   min / max attained within the enumeration when the alphabet covers the expression          (oracle on the code)
 """
 import os
+import shutil
 import random
 import time
 
@@ -195,7 +196,7 @@ def parse_model(path):
 
 
 def execute(cases, exe, tag, la, lf, costlimit=300000, go_suffix_limit=3000000):
-    d = os.path.join(BUILD, "run", "c18")
+    d = os.path.join(BUILD, "run", "c18", str(os.getpid()))
     os.makedirs(d, exist_ok=True)
     cf = os.path.join(d, "cases_%s.txt" % tag)
     with open(cf, "w") as f:
@@ -205,7 +206,7 @@ def execute(cases, exe, tag, la, lf, costlimit=300000, go_suffix_limit=3000000):
     for p in (iout, mout):
         if os.path.exists(p):
             os.remove(p)
-    ov = go_overlay({"internal/tools/regexAnalysis/zz_verif_c18_test.go": os.path.join(ROOT, "harness/c18/zz_verif_c18_test.go")}, "c18")
+    ov = go_overlay({"internal/tools/regexAnalysis/zz_verif_c18_test.go": os.path.join(ROOT, "harness/c18/zz_verif_c18_test.go")}, "c18_%d" % os.getpid())
     rc, out, gosec = go_test("./internal/tools/regexAnalysis/", ov, "^TestVerifC18$",
                              {"VERIF_CASES": cf, "VERIF_OUT": iout, "VERIF_COSTLIMIT": str(go_suffix_limit)}, timeout=900)
     note = "" if rc == 0 else "go harness rc=%d: %s" % (rc, out[-1500:])
@@ -379,4 +380,9 @@ def main(tier, seed, replay=None):
     write_evidence(PROP, tier, seed, cov,
                    ["uint is 64 bit", "programs come from syntax.Compile(Simplify(Parse(re, Perl))) as in regexAnalysis.go"],
                    time.time() - t0, nviol)
+    shutil.rmtree(os.path.join(BUILD, "run", "c18", str(os.getpid())), ignore_errors=True)
+    try:
+        os.remove(os.path.join(BUILD, "overlay", "c18_%d.json" % os.getpid()))
+    except OSError:
+        pass
     return 1 if nviol else 0
